@@ -528,8 +528,13 @@ func run(r *mon.Run) {
 					m.vals = append(m.vals, []*mitem{U(99)})
 				}
 				judge(r, []*mitem{m}, "map-dup", 211)
+				if (a+b+s)%3 == 0 {
+					good := &mitem{k: kMap, keys: keys, vals: vals}
+					retryAfterFailure(r, m, good, "dup-then-dedup")
+				}
 			}
 		}
+		retryAfterWriteFault(r, &mitem{k: kMap, keys: keys, vals: vals})
 		r.Distinct(fmt.Sprintf("map-dup|size%d", size))
 	}
 	// maps with nested maps / arrays as keys
@@ -586,6 +591,84 @@ func run(r *mon.Run) {
 	}
 }
 
+// retryAfterFailure: one Encoder is given a value it must refuse and then a valid value; what the second call emits must be
+// the canonical encoding of the valid value (an Encoder has no state that a refused call could leave behind).
+func retryAfterFailure(r *mon.Run, bad, good *mitem, class string) {
+	var buf bytes.Buffer
+	e := cbor.NewEncoder(&buf)
+	var err1, err2 error
+	mark := 0
+	p, pv := r.Call("retry/"+class, nil, func() {
+		err1 = emit(e, bad)
+		mark = buf.Len()
+		err2 = emit(e, good)
+	})
+	want, werr := ref(good)
+	if werr != nil {
+		r.HarnessFail("retryAfterFailure: the follow-up value is not valid: %v", werr)
+		return
+	}
+	got := buf.Bytes()[mark:]
+	switch {
+	case p:
+		r.Eval("RETRY-PANIC")
+		r.Violation("enc:retry:"+class+":panic", fmt.Sprintf("encoder panicked: %v", pv), nil)
+	case err1 == nil:
+		r.Eval("retry-first-call-not-refused") // judged by the ordinary workload
+	case err2 != nil || !bytes.Equal(got, want):
+		r.Eval("RETRY-DIFFERS")
+		r.Violation("enc:retry:"+class+":"+mon.Short(want), fmt.Sprintf("an Encoder that had refused a value (%v) was then given the valid value %s: it returned %v and emitted %s, canonical encoding %s", err1, describe([]*mitem{good}), err2, mon.Short(got), mon.Short(want)), map[string]any{"refused": describe([]*mitem{bad})})
+	default:
+		r.Eval("retry-ok")
+	}
+	r.Distinct("retry|" + class)
+}
+
+// onceFaulty fails its k-th Write call (once) and accepts everything else.
+type onceFaulty struct {
+	buf   bytes.Buffer
+	calls int
+	k     int
+}
+
+func (w *onceFaulty) Write(p []byte) (int, error) {
+	w.calls++
+	if w.calls == w.k {
+		return 0, fmt.Errorf("injected write failure")
+	}
+	return w.buf.Write(p)
+}
+
+// retryAfterWriteFault: the destination fails once at every Write call in turn; the same value is then encoded again
+// through the same Encoder.
+func retryAfterWriteFault(r *mon.Run, m *mitem) {
+	want, werr := ref(m)
+	if werr != nil {
+		return
+	}
+	for k := 1; k <= 40; k++ {
+		w := &onceFaulty{k: k}
+		e := cbor.NewEncoder(w)
+		err1 := emit(e, m)
+		if err1 == nil {
+			if k == 1 {
+				r.HarnessFail("retryAfterWriteFault: the injected failure of the first Write was not reported")
+			}
+			break // k is beyond the number of Write calls
+		}
+		mark := w.buf.Len()
+		err2 := emit(e, m)
+		got := w.buf.Bytes()[mark:]
+		if err2 != nil || !bytes.Equal(got, want) {
+			r.Eval("RETRY-DIFFERS")
+			r.Violation(fmt.Sprintf("enc:retry:write-fault:%d:%s", k, mon.Short(want)), fmt.Sprintf("the destination failed once at Write call %d (%v); encoding %s again through the same Encoder returned %v and emitted %s, canonical encoding %s", k, err1, describe([]*mitem{m}), err2, mon.Short(got), mon.Short(want)), nil)
+			return
+		}
+		r.Eval("retry-ok")
+	}
+	r.Distinct("retry|write-fault")
+}
+
 // concurrentEncoders: several goroutines encode different values at the same time, each with its own Encoder.
 func concurrentEncoders(r *mon.Run) {
 	var wg sync.WaitGroup
@@ -594,6 +677,7 @@ func concurrentEncoders(r *mon.Run) {
 		wg.Add(1)
 		go func(gi int) {
 			defer wg.Done()
+			defer r.Recover("concurrent workload")
 			g := r.Rand("concurrent", gi+100*r.Shard)
 			for k := 0; k < 300; k++ {
 				seq := []*mitem{genItem(g, 3), genItem(g, 2)}
